@@ -13,6 +13,7 @@ import (
 	"errors"
 	"fmt"
 	"os"
+	"strings"
 	"path/filepath"
 	"sort"
 	"time"
@@ -60,6 +61,12 @@ func record(kind, pw string) any {
 		return map[string]any{"type": "bcrypt", "key": bcryptCache[pw]}
 	case "wildcard":
 		return map[string]any{"type": "wildcard"}
+	case "pbkdf2upper":
+		salt := []byte{0xa1, 0xb2, 0xc3, 0xd4, 0xe5, 0xf6, 0x7a, 0x8b}
+		key := pbkdf2.Key([]byte(pw), salt, 3, 32, sha256.New)
+		return map[string]any{"type": "pbkdf2", "hash": "sha-256", "key": strings.ToUpper(hex.EncodeToString(key)), "salt": strings.ToUpper(hex.EncodeToString(salt)), "iterations": 3}
+	case "emptykey":
+		return map[string]any{"type": "pbkdf2", "hash": "sha-256", "key": "", "salt": "0102", "iterations": 1}
 	case "nokey":
 		return map[string]any{"type": "plain"}
 	case "badhex":
@@ -273,6 +280,10 @@ func signed(c map[string]any) map[string]any {
 		tk, key = jwt.NewWithClaims(jwt.SigningMethodHS256, claims), secret[signer]
 	case "K5":
 		tk, key = jwt.NewWithClaims(jwt.SigningMethodHS384, claims), secret[signer]
+	case "K1as384":
+		tk, key = jwt.NewWithClaims(jwt.SigningMethodHS384, claims), secret["K1"]
+	case "K1as512":
+		tk, key = jwt.NewWithClaims(jwt.SigningMethodHS512, claims), secret["K1"]
 	case "K3":
 		tk, key = jwt.NewWithClaims(jwt.SigningMethodES256, claims), ecKey
 	case "pub3":
